@@ -24,6 +24,8 @@ CommRaw(m, q, p) ==
     [] m.k = "unit" -> RMul(m.a, RAbs(q))
     [] m.k = "tier" -> RMax(m.a, RMul(m.b, RAbs(q)))
     [] m.k = "prop" -> RMul(m.a, RMul(RAbs(q), p))
+    [] m.k = "sell" -> IF RSign(q) = -1 THEN RMul(m.a, RMul(RAbs(q), p)) ELSE Zero
+    [] m.k = "buy"  -> IF RSign(q) = 1 THEN RMul(m.a, RMul(RAbs(q), p)) ELSE Zero
     [] OTHER        -> Zero
 CodeOutlay(C, st, x, q) ==
   RAdd(RAdd(RMul(q, UnitPx(C, st, x)), HalfSpread(C, st, x, q)),
